@@ -85,7 +85,8 @@ def _rt_native(i):
         md = be.get_metadata(dirname)
         loaded = list(be.loader(dirname, executor=None))
         files = sorted(os.path.basename(f) for f in glob.glob(dirname + "/*") if not f.endswith(".json"))
-        return dict(chunks=chunks, loaded=loaded, md=md, files=files, dirname=dirname)
+        sizes = {os.path.basename(f): os.path.getsize(f) for f in glob.glob(dirname + "/*") if not f.endswith(".json")}
+        return dict(chunks=chunks, loaded=loaded, md=md, files=files, dirname=dirname, sizes=sizes)
     finally:
         if ex is not None:
             ex.shutdown(wait=True)
@@ -124,8 +125,12 @@ def _rt_ens(S, a, r):
             per &= info["first_time"] == int(c.data[0]["time"]) and info["last_time"] == int(c.data[-1]["time"]) \
                 and info["first_endtime"] == int(e[0]) and info["last_endtime"] == int(e[-1])
             per &= info.get("filename") in r["files"]
+            # the recorded size of the chunk file, where recorded, is its size on disk
+            # (strax records it only when saving serially; a thread pool saver records nbytes alone)
+            per &= "filesize" not in info or info["filesize"] == r["sizes"].get(info.get("filename"))
+            per &= a.threads or "filesize" in info
     out.append(("metadata: completion marker, no exception, overall start / end, run id", bool(ok_md)))
-    out.append(("metadata: per-chunk row count, byte size, start / end, first / last row times, one file per non-empty chunk",
+    out.append(("metadata: per-chunk row count, byte sizes (in memory and of the file on disk), start / end, first / last row times, one file per non-empty chunk",
                 bool(per) and len(md["chunks"]) == len(loaded)
                 and len(r["files"]) == sum(1 for c in loaded if len(c))))
     return out
